@@ -59,6 +59,12 @@ func hostile(w []byte, emit bool, what string) {
 	if alloc := ms2.TotalAlloc - ms1.TotalAlloc; alloc > uint64(allocPerOctet*len(w)+allocBase) {
 		Viol("C02/unpack-alloc/"+what, "Msg.Unpack allocated "+Itoa(int(alloc))+" octets for "+Itoa(len(w))+" input octets", in)
 	}
+	// every record decoded comes from octets of the input: a record occupies at least 11 of them
+	// (one final empty record at the very end of the input is what unpackHeader tolerates)
+	if n := len(m.Question) + len(m.Answer) + len(m.Ns) + len(m.Extra); res == "ok" && n > len(w)/5+4 {
+		Viol("C02/records-outside-input/"+what, Itoa(n)+" records decoded from "+Itoa(len(w))+" octets", in)
+		return
+	}
 	if emit && len(w) <= 1200 {
 		o := res
 		if res == "ok" {
@@ -257,22 +263,71 @@ func run(r *Rng, tier string, n int) {
 		append(hdr(65535, 65535), 1, 'a', 0, 0, 1, 0, 1),         // lying counts
 		append(hdr(0, 65535), 0, 0, 1, 0, 1, 0, 0, 0, 0, 0, 0),   // many root A records without rdata
 	}
-	for _, hops := range []int{1, 100, 125, 126, 127, 128, 200} {
-		g := append(hdr(1, 0), 1, 'x', 0)
-		for h := 0; h < hops; h++ {
-			t := 12
+	for _, hops := range []int{1, 100, 125, 126, 127, 128, 200, 1000} {
+		// record 1: owner root, unknown type, RDATA = name "x" followed by a chain of pointers, each
+		// pointing BACKWARDS at the previous one; record 2: owner = pointer at the end of the chain
+		rd := []byte{1, 'x', 0}
+		base := 12 + 11 // header + (root owner, type, class, ttl, rdlength)
+		for h := 0; h < hops-1; h++ {
+			t := base
 			if h > 0 {
-				t = 15 + 2*(h-1)
+				t = base + 3 + 2*(h-1)
 			}
-			g = append(g, 0xC0|byte(t>>8), byte(t))
+			rd = append(rd, 0xC0|byte(t>>8), byte(t))
 		}
-		// the question name is the last pointer: rotate so that it comes first is not possible; use an answer record instead
-		q := append([]byte{}, g...)
-		q[5] = 0 // no question
-		q[7] = 1 // one answer whose owner is the chain end
-		last := len(g) - 2
-		q = append(q, 0xC0|byte(last>>8), byte(last), 0, 1, 0, 1, 0, 0, 0, 0, 0, 0)
-		graphs = append(graphs, q)
+		last := base
+		if hops > 1 {
+			last = base + 3 + 2*(hops-2)
+		}
+		g := hdr(0, 2)
+		g = append(g, 0, 0xff, 0x00, 0, 1, 0, 0, 0, 0, byte(len(rd)>>8), byte(len(rd)))
+		g = append(g, rd...)
+		g = append(g, 0xC0|byte(last>>8), byte(last), 0, 1, 0, 1, 0, 0, 0, 0, 0, 0)
+		graphs = append(graphs, g)
+		// the same chain read directly as a name
+		hostileName(g, len(g)-12, false)
+		res := Protect(func() string {
+			_, _, err := dns.UnpackDomainName(g, len(g)-12)
+			if err != nil {
+				return "err"
+			}
+			return "ok"
+		})
+		if hops > 126 && res == "ok" {
+			Viol("C02/pointer-hops-unbounded", "a chain of "+Itoa(hops)+" compression pointers was followed to the end", map[string]string{"wire": Hx(g)})
+		}
+	}
+	// every EDNS0 option code and SVCB key with every value length around its bounds checks
+	for code := 0; code <= 21; code++ {
+		for _, c := range []int{code, 65001} {
+			for l := 0; l <= 20; l++ {
+				data := r.Bytes(l)
+				if l > 0 && r.Bool() {
+					data[0] = 0
+				}
+				rd := append([]byte{byte(c >> 8), byte(c), 0, byte(l)}, data...)
+				g := hdr(0, 0)
+				g[11] = 1 // one additional record
+				g = append(g, 0, 0, 41, 0x10, 0, 0, 0, 0, 0, byte(len(rd)>>8), byte(len(rd)))
+				g = append(g, rd...)
+				hostile(g, l%3 == 0 || l == 5 || l == 7, "edns-option-length")
+			}
+			if code > 0 {
+				break
+			}
+		}
+	}
+	for _, key := range []int{0, 1, 2, 3, 4, 5, 6, 7, 8, 9, 65280, 65535} {
+		for l := 0; l <= 34; l++ {
+			data := r.Bytes(l)
+			rd := []byte{0, 1, 0} // priority 1, target root
+			rd = append(rd, byte(key>>8), byte(key), 0, byte(l))
+			rd = append(rd, data...)
+			g := hdr(0, 1)
+			g = append(g, 1, 's', 0, 0, 64, 0, 1, 0, 0, 0, 0, byte(len(rd)>>8), byte(len(rd)))
+			g = append(g, rd...)
+			hostile(g, l%4 == 0 || l == 15 || l == 17, "svcb-param-length")
+		}
 	}
 	// a long name made of many maximal labels reached through pointers (expansion factor)
 	for _, g := range graphs {
